@@ -16,6 +16,7 @@
 // so that it has a boundary at each of them, and the reference is the coarsest such framing (one call per segment) of a
 // fresh instance - "one call on the whole stream" does not exist for these.
 #include "kit/num.h"
+#include "kit/prelude.h"
 #include <dsplib.h>
 #include "ma-filter.h"   // private header (lib/), the build adds -I/repo/lib
 
